@@ -1630,6 +1630,9 @@ class SymExec:
                    ret=None, depth=depth)
         ev.extra = {"exp": t["sp"]["exp"]}
         ev.extra["pointees"] = {i: self.load(st, a[1], a[2]) for i, a in enumerate(args) if a[0] == "ptr" and a[1][0] == "L"}
+        # what the locals a closure argument captures by reference hold when the call is made
+        ev.extra["captured"] = {(i, j): self.load(st, c[1], c[2]) for i, a in enumerate(args) if a[0] == "closure"
+                                for j, c in enumerate(a[2]) if isinstance(c, tuple) and c and c[0] == "ptr" and c[1][0] == "L"}
         if val is None:
             m = self.model(st, fr, name, args, targs, ev)
             if m is not None:
